@@ -31,19 +31,23 @@ func (vtagNode) Execute(ctx *pongo2.ExecutionContext, w pongo2.TemplateWriter) *
 	return nil
 }
 
+func vtagParser(doc *pongo2.Parser, start *pongo2.Token, args *pongo2.Parser) (pongo2.INodeTag, *pongo2.Error) {
+	vtagParsed++
+	return vtagNode{}, nil
+}
+
+func vfilterFn(in, p *pongo2.Value) (*pongo2.Value, *pongo2.Error) {
+	vfilterCalls++
+	return pongo2.AsValue("VFILTER"), nil
+}
+
 func register() {
 	regOnce.Do(func() {
-		pongo2.RegisterTag("vtag", func(doc *pongo2.Parser, start *pongo2.Token, args *pongo2.Parser) (pongo2.INodeTag, *pongo2.Error) {
-			vtagParsed++
-			return vtagNode{}, nil
-		})
+		pongo2.RegisterTag("vtag", vtagParser)
 		pongo2.RegisterTag("vtag2", func(doc *pongo2.Parser, start *pongo2.Token, args *pongo2.Parser) (pongo2.INodeTag, *pongo2.Error) {
 			return vtagNode{}, nil
 		})
-		pongo2.RegisterFilter("vfilter", func(in, p *pongo2.Value) (*pongo2.Value, *pongo2.Error) {
-			vfilterCalls++
-			return pongo2.AsValue("VFILTER"), nil
-		})
+		pongo2.RegisterFilter("vfilter", vfilterFn)
 		pongo2.RegisterFilter("vfilter2", func(in, p *pongo2.Value) (*pongo2.Value, *pongo2.Error) {
 			return pongo2.AsValue("VFILTER2"), nil
 		})
@@ -361,7 +365,7 @@ type HistCase struct {
 
 func (c *HistCase) ID() string { return strings.Join(c.Ops, " ") }
 
-var histOps = []string{"BanTag(vtag)", "BanTag(if)", "BanTag(nosuch)", "BanFilter(vfilter)", "BanFilter(nosuch)",
+var histOps = []string{"BanTag(vtag)", "BanTag(if)", "BanTag(nosuch)", "BanFilter(vfilter)", "BanFilter(nosuch)", "ReplaceTag(vtag)", "ReplaceFilter(vfilter)",
 	"FromString(plain)", "FromString(uses)", "FromBytes(plain)", "FromFile(plain)", "FromFile(uses)", "FromCache(plain)",
 	"RenderTemplateString(plain)", "RenderTemplateString(uses)", "RenderTemplateBytes(plain)", "RenderTemplateFile(plain)"}
 
@@ -447,6 +451,12 @@ func (c *HistCase) Exec(t *eng.T) {
 				m.filters[arg] = true
 			}
 			f = func() error { return set.BanFilter(arg) }
+		case "ReplaceTag":
+			// the application replaces the implementation registered under a name (process-wide registry, same
+			// behaviour): what a set has banned stays banned, nothing is frozen by it
+			f = func() error { return pongo2.ReplaceTag(arg, vtagParser) }
+		case "ReplaceFilter":
+			f = func() error { return pongo2.ReplaceFilter(arg, vfilterFn) }
 		case "FromString":
 			m.frozen = true
 			wantRefused = !m.usesOK(src)
@@ -615,7 +625,7 @@ func run(r *eng.Runner) {
 	if !r.Quick() {
 		depth = 5
 	}
-	r.Group("histories", "c03.hist", fmt.Sprintf("every call history of length 0..%d over %d operations {BanTag, BanFilter (known, second known, unknown; duplicates arise), FromString/FromBytes/FromFile/FromCache/RenderTemplate* (plain, using banned names)} on a fresh set, every return value compared with the ban-set/frozen-flag model, followed by 6 probe templates and a second set", depth, len(histOps)))
+	r.Group("histories", "c03.hist", fmt.Sprintf("every call history of length 0..%d over %d operations {BanTag, BanFilter (known, second known, unknown; duplicates arise), ReplaceTag / ReplaceFilter of a banned-able name, FromString/FromBytes/FromFile/FromCache/RenderTemplate* (plain, using banned names)} on a fresh set, every return value compared with the ban-set/frozen-flag model, followed by 6 probe templates and a second set", depth, len(histOps)))
 	enum.Seqs(len(histOps), depth, func(idx []int) bool {
 		ops := make([]string, len(idx))
 		for i, x := range idx {
